@@ -220,6 +220,28 @@ def check(run):
             wits.append({"kind": "an edit that changes no interface (`%s`) makes link refuse an up-to-date dependent: %s" % (nm, rs[7].get("err", "")[:200]), "edit": nm, "base_before": ifacegen.BASE, "base_after": ifacegen.edited(nm), "main": ifacegen.MAIN})
         else:
             edit_stats["body_only_links_accepted"] += 1
+    # ---- a stale dependent whose pin alone is brought up to date (not rebuilt) must still be refused ---------------------
+    # (the top-level deps of a core are covered by no hash; validation ties them to the hashed interface.deps)
+    vis = [nm for nm, visible, _ in ifacegen.EDITS if visible and nm not in known_edits][:3]
+    rinputs, rlabels = [], []
+    for nm in vis:
+        for wh in ("top", "interface", "both"):
+            o = ifacegen.ops(nm)
+            o.insert(len(o) - 1, {"op": "repin", "file": "out/Main.core", "dep": "Base", "from": "out/Base.core", "where": wh})
+            rinputs.append({"dir": os.path.join(vlib.BUILD, "tmp", "c15", "repin_%s_%s" % (nm, wh)), "ops": o})
+            rlabels.append((nm, wh))
+    edit_stats["repinned_stale_cores_refused"] = 0
+    for (nm, wh), r in zip(rlabels, vlib.run_harness("sep", rinputs, shards=8)):
+        rs = r["results"]
+        if any("panic" in x for x in rs):
+            wits.append({"kind": "separate compilation API panicked", "edit": nm, "results": [x for x in rs if "panic" in x]})
+        elif not (rs[-2].get("ok") and rs[-2].get("changed")):
+            broken.append(Broken("generator", "C15 repin: could not rewrite the pin of Main.core after `%s`: %s" % (nm, rs[-2])))
+        elif rs[-1].get("ok"):
+            wits.append({"kind": "a stale dependent links after only its recorded pin (%s deps) was overwritten with the dependency's current hash; it was never rebuilt against the edited interface (`%s`)" % (wh, nm),
+                         "edit": nm, "where": wh, "base_before": ifacegen.BASE, "base_after": ifacegen.edited(nm), "main": ifacegen.MAIN, "history": "build Base, build Main, link; edit Base; build Base; repin Main.core; link Base+Main"})
+        else:
+            edit_stats["repinned_stale_cores_refused"] += 1
     # ---- the same interface has the same hash in every process; fresh artifacts validate and link ---------------------
     import subprocess
 
